@@ -57,6 +57,8 @@ LiftLemma == (done /\ CheckLift /\ Len(n) > 0) =>
 \* ScanLemma: the set-based oracles of Bytes coincide with their reading as left-to-right / right-to-left scans
 ScanLemma == done => /\ FindSub(h, n) = FindFrom(h, n, 0)
                      /\ RFindSub(h, n) = RFindFrom(h, n, Len(h) - Len(n))
+                     /\ GreedyFwd(h, n) = GreedyFwdFrom(h, n, 0)
+                     /\ GreedyRev(h, n) = GreedyRevFrom(h, n, Len(h))
 \* TruncLemma: the leftmost occurrence in a prefix of the haystack (the rightmost in a suffix) follows from the
 \* full-haystack oracle -- used by the slow vehicles to probe boundary lengths without new oracle runs.
 TruncLemma == done =>
